@@ -957,7 +957,18 @@ class Interp:
                     env[st.items[0].optional_vars.id] = self.eval(ce.args[0], env) if ce.args else None
                 self.exec_block(st.body, env)
             else:
-                raise Undecided(f"with statement over {unparse(ce)[:40]}: context manager not modelled")
+                cm = self.eval(ce, env)
+                if isinstance(cm, Ext) and hasattr(cm, "sym_enter"):
+                    val = cm.sym_enter(self)
+                    if st.items[0].optional_vars is not None:
+                        env[st.items[0].optional_vars.id] = val
+                    try:
+                        self.exec_block(st.body, env)
+                    finally:
+                        if hasattr(cm, "sym_exit"):
+                            cm.sym_exit(self)
+                else:
+                    raise Undecided(f"with statement over {unparse(ce)[:40]}: context manager not modelled")
         else:
             raise Undecided(f"statement {type(st).__name__} not interpreted")
 
@@ -1814,7 +1825,7 @@ class Interp:
 
     def call_builtin(self, name, args, kwargs, node=None):
         a = args
-        if kwargs:
+        if kwargs and not (name == "open" and "open" in self.external):
             ok = self._KW_OK.get(name, set()) if name in self._KW_OK else (None if name.split(".")[0] in ("list", "dict", "set", "str", "tuple") else set())
             if ok is not None and not set(kwargs) <= ok:
                 raise Undecided(f"keyword argument(s) {sorted(set(kwargs) - ok)} of {name} are not modelled")
@@ -1996,6 +2007,8 @@ class Interp:
         if name == "enumerate":
             start = _idx(kwargs["start"]) if "start" in kwargs else (_idx(a[1]) if len(a) > 1 else 0)
             return LazyGen(enumerate(self.iter_lazy(a[0]), start))
+        if name == "open" and "open" in self.external:
+            return self.external["open"](self, list(a), dict(kwargs))
         if name == "object":
             return Rec(ClassRef("builtins", "object"), {}, mutable=True)
         if name == "callable":
